@@ -66,9 +66,102 @@ def _concurrent_plan(seed: int) -> dict[str, Any]:
             "present": present, "clients": clients, "schedule": schedule, "cases": [], "discarded": 0}
 
 
+def _churn_plan(seed: int) -> dict[str, Any]:
+    """Several threads parse (and drop) charts at the same time under the write / shared-state
+    biased schedule: no interleaving may turn a text into an undocumented error."""
+    g = rng.stream(seed, "gen")
+    f = rng.stream(seed, "fault")
+    p = rng.stream(seed, "plan")
+    s = rng.stream(seed, "sched")
+    texts = []
+    for _ in range(g.randint(2, 4)):
+        d = gen.gen_doc(g, max_tracks=2, small=True)
+        d["unknown"] = []
+        for tr in d["tracks"]:
+            if tr[1] and g.random() < 0.7:  # a star-power phrase that covers the track's notes
+                tr[2] = [[0, max(gr["tick"] for gr in tr[1]) + 10]]
+        lines = gen.render(d).split("\n")
+        if f.random() < 0.5:
+            for _k in range(f.randint(1, 3)):
+                body = [i for i, ln in enumerate(lines) if ln.startswith("  ")]
+                op = corrupt.gen_op(f, lines)
+                if not body or op["kind"] in ("truncate", "line_insert"):
+                    continue
+                for key in ("i", "j"):
+                    if key in op:
+                        op[key] = body[op[key] % len(body)]
+                new = corrupt.apply_op(lines, op)
+                if corrupt.within_bounds(new):
+                    lines = new
+        texts.append("\n".join(lines))
+    n_clients = p.choice([2, 2, 2, 3])
+    clients = [[p.randrange(len(texts)) for _ in range(p.randint(6, 12))] for _ in range(n_clients)]
+    schedule = {"mode": "writes", "seed": s.getrandbits(32), "p": s.choice([0.3, 0.6, 0.9]),
+                "hold": s.choice([1000, 4000, 8000])}
+    if s.random() < 0.3:
+        schedule = {"mode": "geometric", "seed": s.getrandbits(32), "gap": s.choice([3, 10, 100])}
+    return {"property": PROP, "seed": seed, "mode": "concurrent-parse", "texts": texts,
+            "clients": clients, "schedule": schedule, "cases": [], "discarded": 0}
+
+
+def _execute_churn(plan: dict[str, Any]) -> dict[str, Any]:
+    from detsim import world
+
+    world.install_log_sink()
+    n_clients = len(plan["clients"])
+    sched = Scheduler(plan["schedule"], n_clients, env.PKG_DIR,
+                      preempt_lines=not env.package_uses_locks_or_threads())
+    violations: list[dict[str, Any]] = []
+    n_ops = 0
+
+    def body_for(ci: int) -> Any:
+        def body(client: Any) -> None:
+            nonlocal n_ops
+            chart = None
+            for k, ti in enumerate(plan["clients"][ci]):
+                sched.begin_op(client, k)
+                chart = None  # the previous result is dropped while other threads are mid-parse
+                err: BaseException | None = None
+                try:
+                    chart = world.parse_text(plan["texts"][ti], None, newline=None)
+                except HarnessError:
+                    raise
+                except BaseException as e:  # noqa: BLE001
+                    err = e
+                sched.end_op(client)
+                n_ops += 1
+                with sched.atomic(client):
+                    sched.record("op", ci, k, ti, type(err).__name__ if err else "ok")
+                    if err is not None and not world.is_documented_error(err) and not violations:
+                        violations.append({
+                            "sig": f"C18/escaped/{type(err).__name__}/concurrent",
+                            "detail": f"client {ci} op {k}: {type(err).__name__}: {str(err)[:200]!r} escaped "
+                                      f"from_file while other threads were parsing; text={plan['texts'][ti][:200]!r}"})
+        return body
+
+    harness_error = None
+    try:
+        sched.run([body_for(i) for i in range(n_clients)])
+    except HarnessError as e:
+        harness_error = str(e)
+    world.drain_log()
+    sched.record("violations", [v["sig"] for v in violations])
+    return {
+        "violations": violations, "digest": sched.events.hexdigest()[:32], "evals": n_ops,
+        "nontrivial": [rng.digest(plan)] if sched.mid_op_switches else [],
+        "counters": {"concurrent_parse_ops": n_ops}, "sim_steps": sched.global_step, "ops": n_ops,
+        "switches": sched.switches, "mid_op_switches": sched.mid_op_switches,
+        "interleaving": sched.interleaving.hexdigest()[:32], "sched_mode": sched.mode,
+        "sub_batch": "concurrent-parse", "harness_error": harness_error,
+        "explicit_schedule": sched.explicit_schedule(),
+    }
+
+
 def make_plan(seed: int, tier: str, index: int) -> dict[str, Any]:
     if index % 8 == 3:
         return _concurrent_plan(seed)
+    if index % 8 == 6:
+        return _churn_plan(seed)
     g = rng.stream(seed, "gen")
     f = rng.stream(seed, "fault")
     cases = []
@@ -231,6 +324,8 @@ def execute(plan: dict[str, Any]) -> dict[str, Any]:
 
     if plan.get("mode") == "concurrent-render":
         return _execute_concurrent(plan)
+    if plan.get("mode") == "concurrent-parse":
+        return _execute_churn(plan)
     world.install_log_sink()
     import hashlib
 
@@ -303,7 +398,7 @@ def execute(plan: dict[str, Any]) -> dict[str, Any]:
 
 
 def shrink(plan: dict[str, Any]):
-    if plan.get("mode") == "concurrent-render":
+    if plan.get("mode") in ("concurrent-render", "concurrent-parse"):
         clients = plan["clients"]
         if len(clients) > 2:
             for i in range(len(clients)):
